@@ -152,6 +152,11 @@ SINGLE = FnSpec(FILE, 'single', IMPL, contract='''
 
 LEN = FnSpec(FILE, 'len', IMPL, contract='\n        ensures r == self.heads@.len(),\n')
 
+IS_EMPTY = FnSpec(FILE, 'is_empty', IMPL, contract='\n        ensures r == (self.heads@.len() == 0),\n',
+                  rewrites=[('self.heads.is_empty()', 'self.heads.len() == 0', 1, 'Vec::is_empty -> len()==0 (no vstd spec)')])
+# the slice storage writes out as the committed heads: exactly the sorted sequence, nothing dropped or reordered
+AS_SLICE = FnSpec(FILE, 'as_slice', IMPL, contract='\n        ensures r@ == self.heads@,\n')
+
 
 def build():
-    return build_unit(PRELUDE, [(IMPL, [SINGLE, LEN, PUSH])], POSTLUDE)
+    return build_unit(PRELUDE, [(IMPL, [SINGLE, LEN, IS_EMPTY, AS_SLICE, PUSH])], POSTLUDE)
